@@ -186,4 +186,356 @@ def item_v4_flag_consts(repo, out):
     out.append('Definition v4_cal_flag_name : string := %s.' % coq_string(cal))
 
 
-ITEMS = [item_v4_indexers, item_v4_flag_consts]
+# ---------------------------------------------------------------------------------------------------------------
+# selection plumbing: how a flags= / weights= argument travels from select() to the masks of a data set and of the
+# members of a concatenated data set
+# ---------------------------------------------------------------------------------------------------------------
+def _guard_kind(test, param, where):
+    """`<param> is not None` -> is_not_none ; `<param>` -> truthy ; anything else is not understood."""
+    t = _norm(test)
+    if t == '%sisnotNone' % param:
+        return 'is_not_none'
+    if t == param:
+        return 'truthy'
+    raise TranslateError('%s: guard `%s` of the assignment from %s is neither `%s is not None` nor `%s`'
+                         % (where, ast.unparse(test)[:60], param, param, param))
+
+
+def item_ds_set_keep(repo, out):
+    """katdal/dataset.py DataSet._set_keep: `if <guard>: self._weights_keep = weights_keep` and the same for flags
+    (each once, at top level, nothing else in the branch); DataSet.__init__: both start as 'all', _selection = {}."""
+    rel = 'katdal/dataset.py'
+    tree = _parse(repo, rel)
+    cls = _class(tree, 'DataSet', rel)
+    fn = _func(cls, '_set_keep', rel)
+    params = [a.arg for a in fn.args.args]
+    if params != ['self', 'time_keep', 'freq_keep', 'corrprod_keep', 'weights_keep', 'flags_keep'] \
+            or [_norm(d) for d in fn.args.defaults] != ['None'] * 5 or fn.args.vararg or fn.args.kwarg or fn.args.kwonlyargs:
+        raise TranslateError('%s:DataSet._set_keep: unexpected parameter list %s' % (rel, params))
+    guards = []
+    for what in ('weights', 'flags'):
+        attr, param = '_%s_keep' % what, '%s_keep' % what
+        found = _self_assigns(fn, attr)
+        if len(found) != 1:
+            raise TranslateError('%s:DataSet._set_keep: self.%s assigned %d times' % (rel, attr, len(found)))
+        ifs = [n for n in fn.body if isinstance(n, ast.If) and any(m is found[0] for m in ast.walk(n))]
+        if len(ifs) != 1 or ifs[0].orelse or len(ifs[0].body) != 1 or ifs[0].body[0] is not found[0] \
+                or _norm(found[0]) != 'self.%s=%s' % (attr, param):
+            raise TranslateError('%s:DataSet._set_keep: self.%s is not set by a plain top-level '
+                                 '`if <guard>: self.%s = %s`' % (rel, attr, attr, param))
+        guards.append((what, _guard_kind(ifs[0].test, param, '%s:DataSet._set_keep' % rel)))
+        stores = [n for n in ast.walk(fn) if isinstance(n, ast.Name) and n.id == param and isinstance(n.ctx, ast.Store)]
+        if stores:
+            raise TranslateError('%s:DataSet._set_keep: parameter %s is rebound' % (rel, param))
+    out.append('Definition ds_set_keep_guards : list (string * string) := [%s].'
+               % '; '.join('(%s, %s)' % (coq_string(k), coq_string(v)) for k, v in guards))
+    init = _func(cls, '__init__', rel)
+    inits = []
+    for attr in ('_weights_keep', '_flags_keep'):
+        found = _self_assigns(init, attr)
+        if len(found) != 1 or found[0] not in init.body or not isinstance(found[0], ast.Assign) \
+                or not isinstance(found[0].value, ast.Constant) or not isinstance(found[0].value.value, str):
+            raise TranslateError('%s:DataSet.__init__: self.%s is not initialised once with a string literal' % (rel, attr))
+        inits.append((attr, found[0].value.value))
+    sel = _self_assigns(init, '_selection')
+    if len(sel) != 1 or _norm(sel[0].value) != '{}':
+        raise TranslateError('%s:DataSet.__init__: self._selection does not start as {}' % rel)
+    out.append('Definition ds_init_keeps : list (string * string) := [%s].'
+               % '; '.join('(%s, %s)' % (coq_string(k), coq_string(v)) for k, v in inits))
+
+
+def _const_str_list(fn, name, rel):
+    asg = [n for n in ast.walk(fn) if isinstance(n, ast.Assign) and _norm(n.targets[0]) == name]
+    if len(asg) != 1 or not isinstance(asg[0].value, ast.List) \
+            or not all(isinstance(e, ast.Constant) and isinstance(e.value, str) for e in asg[0].value.elts):
+        raise TranslateError('%s:select: %s is not one list of string literals' % (rel, name))
+    return [e.value for e in asg[0].value.elts]
+
+
+def item_ds_select_keeps(repo, out):
+    """katdal/dataset.py DataSet.select: the keyword arguments are merged into self._selection (which only ever
+    loses time / frequency / product selectors), the loop over self._selection assigns `self._weights_keep = v` for
+    k == 'weights' and `self._flags_keep = v` for k == 'flags' (nowhere else), and the call ends with
+    self._set_keep(self._time_keep, self._freq_keep, self._corrprod_keep, self._weights_keep, self._flags_keep)."""
+    rel = 'katdal/dataset.py'
+    tree = _parse(repo, rel)
+    fn = _func(_class(tree, 'DataSet', rel), 'select', rel)
+    upd = [n for n in fn.body if isinstance(n, ast.Expr) and _norm(n.value) == 'self._selection.update(kwargs)']
+    loops = [n for n in fn.body if isinstance(n, ast.For) and _norm(n.iter) == 'self._selection.items()'
+             and _norm(n.target) == '(k,v)']
+    if len(upd) != 1 or len(loops) != 1 or fn.body.index(upd[0]) > fn.body.index(loops[0]):
+        raise TranslateError('%s:select: `self._selection.update(kwargs)` followed by one loop over '
+                             'self._selection.items() not found' % rel)
+    # keys removed from self._selection: only through `for key in <X>_selectors: self._selection.pop(key, None)`
+    lists = {n: _const_str_list(fn, n, rel) for n in ('time_selectors', 'freq_selectors', 'corrprod_selectors')}
+    for n in ast.walk(fn):
+        if isinstance(n, ast.Call) and _norm(n.func).startswith('self._selection.') \
+                and _norm(n.func) not in ('self._selection.update', 'self._selection.items'):
+            if _norm(n) != 'self._selection.pop(key,None)':
+                raise TranslateError('%s:select: unexpected use of self._selection: %s' % (rel, ast.unparse(n)[:60]))
+    for n in ast.walk(fn):
+        if isinstance(n, ast.For) and any(isinstance(m, ast.Call) and _norm(m) == 'self._selection.pop(key,None)'
+                                          for m in ast.walk(n)):
+            if _norm(n.target) != 'key' or _norm(n.iter) not in lists or len(n.body) != 1:
+                raise TranslateError('%s:select: self._selection.pop outside a loop over a selector list' % rel)
+    for n in ast.walk(fn):
+        if isinstance(n, (ast.Assign, ast.AugAssign, ast.Delete)) and 'self._selection' in _norm(n) \
+                and not isinstance(n, ast.Assign):
+            raise TranslateError('%s:select: self._selection is modified in an unexpected way' % rel)
+        if isinstance(n, ast.Assign) and any(_norm(t).startswith('self._selection') for t in n.targets):
+            raise TranslateError('%s:select: self._selection is (re)assigned' % rel)
+    for name, lst in lists.items():
+        if 'flags' in lst or 'weights' in lst:
+            raise TranslateError('%s:select: %s contains flags / weights (they would be forgotten on reset)' % (rel, name))
+    # the if / elif chain of the loop
+    keeps = []
+    for what in ('weights', 'flags'):
+        attr = '_%s_keep' % what
+        found = _self_assigns(fn, attr)
+        if len(found) != 1 or _norm(found[0]) != 'self.%s=v' % attr:
+            raise TranslateError('%s:select: self.%s is not assigned exactly once as `self.%s = v`' % (rel, attr, attr))
+        node, chain_ok = loops[0].body[0] if len(loops[0].body) == 1 else None, False
+        while isinstance(node, ast.If):
+            if any(m is found[0] for m in node.body):
+                chain_ok = _norm(node.test) == "k=='%s'" % what and len(node.body) == 1
+                break
+            node = node.orelse[0] if len(node.orelse) == 1 else None
+        if not chain_ok:
+            raise TranslateError("%s:select: `self.%s = v` is not the whole branch `k == '%s'` of the loop over "
+                                 "self._selection" % (rel, attr, what))
+        keeps.append((what, attr))
+    calls = [n for n in ast.walk(fn) if isinstance(n, ast.Call) and _norm(n.func) == 'self._set_keep']
+    if len(calls) != 1 or not any(isinstance(s, ast.Expr) and s.value is calls[0] for s in fn.body) \
+            or calls[0].keywords or fn.body.index([s for s in fn.body if isinstance(s, ast.Expr) and s.value is calls[0]][0]) \
+            < fn.body.index(loops[0]):
+        raise TranslateError('%s:select: one unconditional positional self._set_keep(...) call after the loop not found' % rel)
+    args = []
+    for a in calls[0].args:
+        c = _self_chain(a)
+        if c is None:
+            raise TranslateError('%s:select: argument %s of self._set_keep is not an attribute of self' % (rel, _norm(a)[:40]))
+        args.append(c)
+    out.append('Definition ds_select_keeps : list (string * string) := [%s].'
+               % '; '.join('(%s, %s)' % (coq_string(k), coq_string(v)) for k, v in keeps))
+    out.append('Definition ds_select_final_set_keep : list string := %s.' % coq_strings(args))
+
+
+def item_concat_set_keep(repo, out):
+    """katdal/concatdata.py ConcatenatedDataSet: _flags_keep / _weights_keep are plain attributes (no property),
+    _set_keep = super()._set_keep(<the five parameters>) + one d._set_keep(<keywords>) per member; flags / weights /
+    vis are ConcatenatedLazyIndexer([d.<x> for d in self.datasets]); __init__ ends with select(spw=0, subarray=0)."""
+    rel = 'katdal/concatdata.py'
+    tree = _parse(repo, rel)
+    cls = _class(tree, 'ConcatenatedDataSet', rel)
+    for n in cls.body:
+        if isinstance(n, ast.FunctionDef) and n.name in ('_flags_keep', '_weights_keep', '_flags_select'):
+            raise TranslateError('%s: ConcatenatedDataSet defines %s (expected a plain attribute)' % (rel, n.name))
+    if [_norm(b) for b in cls.bases] != ['DataSet']:
+        raise TranslateError('%s: ConcatenatedDataSet is not a direct subclass of DataSet' % rel)
+    fn = _func(cls, '_set_keep', rel)
+    body = [s for s in fn.body if not (isinstance(s, ast.Expr) and isinstance(s.value, ast.Constant))]
+    if len(body) != 2 or not (isinstance(body[0], ast.Expr) and isinstance(body[0].value, ast.Call)
+                              and _norm(body[0].value.func) == 'super()._set_keep' and not body[0].value.keywords):
+        raise TranslateError('%s:_set_keep: not `super()._set_keep(...)` followed by one loop' % rel)
+    sup = [_norm(a) for a in body[0].value.args]
+    loop = body[1]
+    if not (isinstance(loop, ast.For) and _norm(loop.iter) == 'enumerate(self.datasets)' and _norm(loop.target) == '(n,d)'
+            and len(loop.body) == 1 and isinstance(loop.body[0], ast.Expr) and isinstance(loop.body[0].value, ast.Call)
+            and _norm(loop.body[0].value.func) == 'd._set_keep' and not loop.body[0].value.args):
+        raise TranslateError('%s:_set_keep: the loop is not `for n, d in enumerate(self.datasets): d._set_keep(<kw>)`' % rel)
+    kws = []
+    for k in loop.body[0].value.keywords:
+        if k.arg is None:
+            raise TranslateError('%s:_set_keep: **kwargs passed to the members' % rel)
+        kws.append((k.arg, _norm(k.value)))
+    for what in ('weights_keep', 'flags_keep'):
+        v = dict(kws).get(what)
+        if v not in (None, 'self._' + what, what):
+            raise TranslateError('%s:_set_keep: members get %s=%s (expected self._%s)' % (rel, what, v, what))
+    out.append('Definition concat_super_set_keep_args : list string := %s.' % coq_strings(sup))
+    # the only other override of _set_keep (VisibilityDataV4) hands all five parameters to DataSet._set_keep first
+    overriding = []
+    for rel2, cname in (('katdal/visdatav4.py', 'VisibilityDataV4'), ('katdal/h5datav3.py', 'H5DataV3'),
+                        ('katdal/h5datav2.py', 'H5DataV2')):
+        c2 = _class(_parse(repo, rel2), cname, rel2)
+        fns = [n for n in c2.body if isinstance(n, ast.FunctionDef) and n.name == '_set_keep']
+        if not fns:
+            continue
+        b2 = [s for s in fns[0].body if not (isinstance(s, ast.Expr) and isinstance(s.value, ast.Constant))]
+        if not b2 or _norm(b2[0]) != 'super()._set_keep(time_keep,freq_keep,corrprod_keep,weights_keep,flags_keep)' \
+                or [a.arg for a in fns[0].args.args] != ['self', 'time_keep', 'freq_keep', 'corrprod_keep', 'weights_keep', 'flags_keep']:
+            raise TranslateError('%s:%s._set_keep does not start with super()._set_keep(<its five parameters>)' % (rel2, cname))
+        for n in ast.walk(fns[0]):
+            if isinstance(n, ast.Name) and n.id in ('flags_keep', 'weights_keep') and isinstance(n.ctx, ast.Store):
+                raise TranslateError('%s:%s._set_keep rebinds %s' % (rel2, cname, n.id))
+        overriding.append(cname)
+    out.append('Definition set_keep_overridden_by : list string := %s.' % coq_strings(overriding))
+    out.append('Definition concat_member_keep_args : list (string * string) := [%s].'
+               % '; '.join('(%s, %s)' % (coq_string(k), coq_string(v)) for k, v in kws if k in ('weights_keep', 'flags_keep')))
+    props = []
+    for name in ('vis', 'weights', 'flags'):
+        p = _func(cls, name, rel)
+        stmts = [s for s in p.body if not (isinstance(s, ast.Expr) and isinstance(s.value, ast.Constant))]
+        if [_norm(d) for d in p.decorator_list] != ['property'] or len(stmts) != 1 \
+                or _norm(stmts[0]) != 'returnConcatenatedLazyIndexer([d.%sfordinself.datasets])' % name:
+            raise TranslateError('%s: ConcatenatedDataSet.%s is not ConcatenatedLazyIndexer([d.%s for d in '
+                                 'self.datasets])' % (rel, name, name))
+        props.append(name)
+    out.append('Definition concat_data_from_members : list string := %s.' % coq_strings(props))
+    init = _func(cls, '__init__', rel)
+    last = init.body[-1]
+    if _norm(last) != 'self.select(spw=0,subarray=0)':
+        raise TranslateError('%s: ConcatenatedDataSet.__init__ does not end with self.select(spw=0, subarray=0)' % rel)
+    out.append('Definition concat_init_ends_with_select : bool := true.')
+
+
+def _strip_noise(stmts):
+    """drop docstrings, asserts, comments-only and logger.warning statements (also `if c: logger.warning(...)`)."""
+    out = []
+    for s in stmts:
+        if isinstance(s, ast.Assert) or (isinstance(s, ast.Expr) and isinstance(s.value, ast.Constant)):
+            continue
+        if isinstance(s, ast.Expr) and isinstance(s.value, ast.Call) and _norm(s.value.func) == 'logger.warning':
+            continue
+        if isinstance(s, ast.If) and not s.orelse and not _strip_noise(s.body):
+            continue
+        out.append(s)
+    return out
+
+
+def _prop_funcs(cls, name, rel):
+    get = [n for n in cls.body if isinstance(n, ast.FunctionDef) and n.name == name
+           and [_norm(d) for d in n.decorator_list] == ['property']]
+    put = [n for n in cls.body if isinstance(n, ast.FunctionDef) and n.name == name
+           and [_norm(d) for d in n.decorator_list] == ['%s.setter' % name]]
+    if len(get) != 1 or len(put) != 1:
+        raise TranslateError('%s: %s.%s is not one property with one setter' % (rel, cls.name, name))
+    return get[0], put[0]
+
+
+def item_flag_setters(repo, out):
+    """The `_flags_keep` property of the three formats: setter = _selection_to_list(names, all=KNOWN), zeros(8),
+    selection[KNOWN.index(name)] = 1 (ValueError -> warning), packbits(flipud(selection)) [v3, v4] or
+    packbits(selection) [v2]; getter = names of KNOWN where (flipud(unpackbits(mask)) | unpackbits(mask)) is set.
+    h5 formats: KNOWN = [row[0] for row in self._flags_description], which defaults to zip(FLAG_NAMES, ...) when the
+    file has no table.  Also dataset._selection_to_list and the h5 `_weights_keep` property + WEIGHT_NAMES."""
+    flips, wnames = [], []
+    for fmt, rel, cname, known in (('v4', 'katdal/visdatav4.py', 'VisibilityDataV4', 'FLAG_NAMES'),
+                                   ('v3', 'katdal/h5datav3.py', 'H5DataV3', 'known_flags'),
+                                   ('v2', 'katdal/h5datav2.py', 'H5DataV2', 'known_flags')):
+        tree = _parse(repo, rel)
+        if _flags_import_as(tree, 'FLAG_NAMES', rel) != 'NAMES':
+            raise TranslateError('%s: FLAG_NAMES is not flags.NAMES' % rel)
+        cls = _class(tree, cname, rel)
+        get, put = _prop_funcs(cls, '_flags_keep', rel)
+        g = [_norm(s) for s in _strip_noise(get.body)]
+        p = [_norm(s) for s in _strip_noise(put.body)]
+        pre_g, pre_p = [], []
+        if known == 'known_flags':
+            pre_g = ["ifnothasattr(self,'_flags_description'):return[]",
+                     'known_flags=[row[0]forrowinself._flags_description]']
+            pre_p = ["ifnothasattr(self,'_flags_description'):self._flags_select=np.array([0],dtype=np.uint8)return",
+                     'known_flags=[row[0]forrowinself._flags_description]']
+        flip = {}
+        for which, got, pre, tmpl in (
+                ('getter', g, pre_g, ['selection=%s', 'return[nameforname,bitinzip(' + known + ',selection)ifbit]']),
+                ('setter', p, pre_p, ['names=_selection_to_list(names,all=' + known + ')', 'selection=np.zeros(8,dtype=np.uint8)',
+                                      'fornameinnames:try:selection[' + known + '.index(name)]=1exceptValueError:logger.warning(%W)',
+                                      'flagmask=%s', 'self._flags_select=flagmask'])):
+            got = [s for s in got]
+            # the warning call inside the try/except is kept by _strip_noise (it is the handler body): normalise it
+            got = [__import__('re').sub(r'logger\.warning\(.*\)$', 'logger.warning(%W)', s) if s.startswith('fornameinnames') else s
+                   for s in got]
+            want_flip = pre + [t % ('np.flipud(np.unpackbits(self._flags_select))' if which == 'getter'
+                                    else 'np.packbits(np.flipud(selection))') if '%s' in t else t for t in tmpl]
+            want_plain = pre + [t % ('np.unpackbits(self._flags_select)' if which == 'getter'
+                                     else 'np.packbits(selection)') if '%s' in t else t for t in tmpl]
+            if got == want_flip:
+                flip[which] = True
+            elif got == want_plain:
+                flip[which] = False
+            else:
+                raise TranslateError('%s: %s._flags_keep %s has an unexpected body' % (rel, cname, which))
+        flips.append((fmt, flip['setter'], flip['getter']))
+        if known == 'known_flags':
+            init = _func(cls, '__init__', rel)
+            fd = _self_assigns(init, '_flags_description')
+            if len(fd) != 1 or not isinstance(fd[0].value, ast.IfExp) \
+                    or _norm(fd[0].value.orelse) != 'np.array(list(zip(FLAG_NAMES,FLAG_DESCRIPTIONS)))':
+                raise TranslateError('%s: default of self._flags_description is not zip(FLAG_NAMES, FLAG_DESCRIPTIONS)' % rel)
+            wn = _module_assign_local(tree, 'WEIGHT_NAMES', rel)
+            if not (isinstance(wn, ast.Tuple) and all(isinstance(e, ast.Constant) and isinstance(e.value, str) for e in wn.elts)):
+                raise TranslateError('%s: WEIGHT_NAMES is not a tuple of strings' % rel)
+            wd = _self_assigns(init, '_weights_description')
+            if len(wd) != 1 or not isinstance(wd[0].value, ast.IfExp) \
+                    or _norm(wd[0].value.orelse) != 'np.array(list(zip(WEIGHT_NAMES,WEIGHT_DESCRIPTIONS)))':
+                raise TranslateError('%s: default of self._weights_description is not zip(WEIGHT_NAMES, ...)' % rel)
+            wg, wp = _prop_funcs(cls, '_weights_keep', rel)
+            kw = "known_weights=[row[0]forrowingetattr(self,'_weights_description',[])]"
+            if [_norm(s) for s in _strip_noise(wg.body)] != [kw, 'return[known_weights[ind]forindinself._weights_select]']:
+                raise TranslateError('%s: %s._weights_keep getter has an unexpected body' % (rel, cname))
+            got = [__import__('re').sub(r'logger\.warning\(.*\)$', 'logger.warning(%W)', _norm(s)) for s in _strip_noise(wp.body)]
+            if got != [kw, 'names=_selection_to_list(names,all=known_weights)', 'selection=[]',
+                       'fornameinnames:try:selection.append(known_weights.index(name))exceptValueError:logger.warning(%W)',
+                       'self._weights_select=selection']:
+                raise TranslateError('%s: %s._weights_keep setter has an unexpected body' % (rel, cname))
+            wnames.append((fmt, [e.value for e in wn.elts]))
+        else:
+            for n in cls.body:
+                if isinstance(n, ast.FunctionDef) and n.name == '_weights_keep':
+                    raise TranslateError('%s: VisibilityDataV4 defines _weights_keep (expected a plain attribute)' % rel)
+    rel = 'katdal/dataset.py'
+    tree = _parse(repo, rel)
+    fns = [n for n in tree.body if isinstance(n, ast.FunctionDef) and n.name == '_selection_to_list']
+    want = ['ifisinstance(names,str):ifnotnames:return[]elifnamesingroups:returnlist(groups[names])'
+            "else:return[name.strip()fornameinnames.split(',')]"
+            'elifis_iterable(names):returnlist(names)else:return[names]']
+    if len(fns) != 1 or [_norm(s) for s in _strip_noise(fns[0].body)] != want:
+        raise TranslateError('%s: _selection_to_list has an unexpected body' % rel)
+    b = lambda x: 'true' if x else 'false'   # noqa: E731
+    out.append('Definition flag_setter_flip : list (string * (bool * bool)) := [%s].'
+               % '; '.join('(%s, (%s, %s))' % (coq_string(f), b(s), b(g)) for f, s, g in flips))
+    out.append('Definition ds_weight_names : list (string * list string) := [%s].'
+               % '; '.join('(%s, %s)' % (coq_string(f), coq_strings(w)) for f, w in wnames))
+
+
+def _flags_import_as(tree, alias, rel):
+    imported = [a.name for n in tree.body if isinstance(n, ast.ImportFrom) and n.module == 'flags' and n.level == 1
+                for a in n.names if (a.asname or a.name) == alias]
+    if len(imported) != 1:
+        raise TranslateError('%s: %s is not imported (once) from .flags' % (rel, alias))
+    return imported[0]
+
+
+def _module_assign_local(tree, name, rel):
+    found = [n for n in tree.body if isinstance(n, ast.Assign) and len(n.targets) == 1
+             and isinstance(n.targets[0], ast.Name) and n.targets[0].id == name]
+    if len(found) != 1:
+        raise TranslateError('%s:%s: expected exactly one module-level assignment' % (rel, name))
+    return found[0].value
+
+
+def item_h5_flag_transform(repo, out):
+    """h5datav3 / h5datav2 `flags` property: the mask in force when the indexer is obtained, np.bool_(np.bitwise_and(
+    mask, flags)) on the stored bytes (self._flags)."""
+    res = []
+    for fmt, rel, cname in (('v3', 'katdal/h5datav3.py', 'H5DataV3'), ('v2', 'katdal/h5datav2.py', 'H5DataV2')):
+        tree = _parse(repo, rel)
+        fn = _func(_class(tree, cname, rel), 'flags', rel)
+        got = [_norm(s) for s in _strip_noise(fn.body)]
+        # the docstring of the inner function is an Expr inside the FunctionDef: strip it
+        inner = [n for n in fn.body if isinstance(n, ast.FunctionDef) and n.name == 'transform']
+        if len(inner) != 1 or [_norm(s) for s in _strip_noise(inner[0].body)] != ['returnnp.bool_(np.bitwise_and(flags_select,flags))'] \
+                or [a.arg for a in inner[0].args.args] != ['flags', 'keep']:
+            raise TranslateError('%s: %s.flags: transform is not np.bool_(np.bitwise_and(flags_select, flags))' % (rel, cname))
+        rest = [_norm(s) for s in _strip_noise(fn.body) if s is not inner[0]]
+        if rest != ['flags_select=self._flags_select', "extract=LazyTransform('extract_flags',transform,dtype=bool)",
+                    'returnself._vislike_indexer(self._flags,extract)']:
+            raise TranslateError('%s: %s.flags has an unexpected body' % (rel, cname))
+        res.append((fmt, 'bool(and(mask,stored))'))
+    out.append('Definition h5_flag_transform : list (string * string) := [%s].'
+               % '; '.join('(%s, %s)' % (coq_string(k), coq_string(v)) for k, v in res))
+
+
+ITEMS = [item_v4_indexers, item_v4_flag_consts, item_ds_set_keep, item_ds_select_keeps, item_concat_set_keep,
+         item_flag_setters, item_h5_flag_transform]
